@@ -13,6 +13,22 @@ mod verif_c12_natives {
     use crate::verif_stubs::*;
     use crate::vm::verif_vm::*;
     use std::cell::RefCell;
+    pub(crate) use std::cmp::PartialEq as PEq;
+
+    // Cuts by restriction: the keys of these harnesses are numbers, booleans, nil (and one vector that is
+    // rejected before it is hashed). A Value read back from the value stack has an unknown discriminant to
+    // CBMC, so without the cuts every lookup also encodes the recursive tuple arms of Value::hash and
+    // Value::eq to the unwinding limit. Reaching a cut is a "verif:" model failure (inconclusive), never
+    // a pass. Tuple keys have their own harnesses in value.rs.
+    fn tuple_eq_not_modelled(_a: &crate::object::ObjTuple, _b: &crate::object::ObjTuple) -> bool {
+        panic!("verif: tuple == not modelled in the native-call harnesses")
+    }
+    fn vec_eq_not_modelled(_a: &ObjVec, _b: &ObjVec) -> bool {
+        panic!("verif: vector == not modelled in the native-call harnesses")
+    }
+    fn map_eq_not_modelled(_a: &ObjHashMap, _b: &ObjHashMap) -> bool {
+        panic!("verif: map == not modelled in the native-call harnesses")
+    }
 
     fn num(v: Value, want: f64) -> bool {
         matches!(v, Value::Number(x) if x.to_bits() == want.to_bits())
@@ -69,10 +85,15 @@ mod verif_c12_natives {
     macro_rules! c12n_proof {
         ($name:ident, $body:block) => {
             #[kani::proof]
-            #[kani::unwind(6)]
+            #[kani::unwind(5)]
             #[kani::stub(std::fmt::format, fmt_stub)]
             #[kani::stub(crate::vm::Vm::new_root_obj_err_from_error, crate::vm::verif_vm::err_instance_stub)]
             #[kani::stub(crate::vm::Vm::new_error_from_value, crate::vm::verif_vm::error_from_value_stub)]
+            #[kani::stub(<crate::hash::BuildPassThroughHasher as crate::hash::verif_hash::BuildHasherT>::build_hasher, crate::hash::verif_hash::build_hasher_direct)]
+            #[kani::stub(<crate::hash::PassThroughHasher as crate::hash::verif_hash::DefaultT>::default, crate::hash::verif_hash::tuple_hasher_not_modelled)]
+            #[kani::stub(<crate::object::ObjTuple as crate::core::verif_c12_natives::PEq>::eq, tuple_eq_not_modelled)]
+            #[kani::stub(<crate::object::ObjVec as crate::core::verif_c12_natives::PEq>::eq, vec_eq_not_modelled)]
+            #[kani::stub(<crate::object::ObjHashMap as crate::core::verif_c12_natives::PEq>::eq, map_eq_not_modelled)]
             fn $name() $body
         };
     }
